@@ -2,12 +2,12 @@ package e2
 
 import (
 	"encoding/binary"
-	"runtime/debug"
 	"encoding/hex"
 	"fmt"
 	"os"
 	"path/filepath"
 	"runtime"
+	"runtime/debug"
 	"strings"
 
 	"github.com/scigolib/hdf5/verifsim/disk"
@@ -76,6 +76,34 @@ func genMutations(file []byte, n int, seed uint64) []trace.Fault {
 		return hex.EncodeToString(b[:w])
 	}
 	var out []trace.Fault
+	// structural mutation: turn version-1 B-tree nodes into ladders (shared
+	// children over many levels - a DAG, not a cycle)
+	starts := map[uint64]bool{}
+	for _, e := range dec.Extents {
+		starts[e.Start] = true
+	}
+	for _, e := range dec.Extents {
+		if (e.Kind != "btree-v1-chunk" && e.Kind != "btree-v1-group") || int64(e.End) > size || e.End-e.Start < 40 || len(out) >= 4 {
+			continue
+		}
+		node := file[e.Start:e.End]
+		if string(node[:4]) != "TREE" {
+			continue
+		}
+		// child pointers: 8-byte fields after the 24-byte node header that hold
+		// the address of another structure of the file
+		var ptrs []byte
+		for at := 24; at+8 <= len(node); at += 4 {
+			if starts[binary.LittleEndian.Uint64(node[at:])] && binary.LittleEndian.Uint64(node[at:]) != 0 {
+				ptrs = append(ptrs, byte(at), byte(at>>8))
+				at += 4
+			}
+		}
+		if len(ptrs) < 4 { // at least two children, or no blow-up
+			continue
+		}
+		out = append(out, trace.Fault{Kind: "btree_ladder", Off: int64(e.Start), Len: int64(e.End - e.Start), Keep: rng.Pick(r, []int{12, 40, 60}), Hex: hex.EncodeToString(ptrs)})
+	}
 	for len(out) < n {
 		k := r.Intn(10)
 		switch {
@@ -184,20 +212,8 @@ func execC07(t *trace.Trace, dir string) *harness.RunResult {
 	skip, ex := harness.TakeSkipSub(), 0
 	for _, f := range muts {
 		copy(buf, orig)
-		cur := buf
-		switch f.Kind {
-		case "set_bytes":
-			b, _ := hex.DecodeString(f.Hex)
-			if f.Off < 0 || f.Off+int64(len(b)) > size {
-				continue
-			}
-			copy(cur[f.Off:], b)
-		case "truncate":
-			if f.Len < 0 || f.Len > size {
-				continue
-			}
-			cur = cur[:f.Len]
-		default:
+		cur, ok := applyMutation(buf[:len(orig)], f)
+		if !ok {
 			continue
 		}
 		ex++
@@ -269,6 +285,68 @@ func init() {
 	})
 }
 
+// applyMutation returns the file image with one mutation applied (the result
+// may alias buf, which must hold a copy of the original), or false when the
+// mutation does not fit the file.
+func applyMutation(buf []byte, f trace.Fault) ([]byte, bool) {
+	size := int64(len(buf))
+	switch f.Kind {
+	case "set_bytes":
+		b, _ := hex.DecodeString(f.Hex)
+		if f.Off < 0 || f.Off+int64(len(b)) > size {
+			return nil, false
+		}
+		copy(buf[f.Off:], b)
+		return buf, true
+	case "truncate":
+		if f.Len < 0 || f.Len > size {
+			return nil, false
+		}
+		return buf[:f.Len], true
+	case "btree_ladder":
+		// A version-1 B-tree node at Off (Len bytes) becomes the top of a ladder
+		// of Keep levels: the original node is moved to the end of the file, Keep-1
+		// copies follow it, each one level higher with EVERY child pointer naming
+		// the copy below, and the node at Off points at the topmost copy. The file
+		// stays small (Keep*Len bytes more) but a reader that follows every path
+		// visits 2^Keep nodes.
+		ptrs, _ := hex.DecodeString(f.Hex)
+		if f.Off < 0 || f.Len < 24 || f.Off+f.Len > size || f.Keep < 1 || len(ptrs) < 2 || len(ptrs)%2 != 0 {
+			return nil, false
+		}
+		node := append([]byte(nil), buf[f.Off:f.Off+f.Len]...)
+		base := (size + 7) &^ 7
+		out := append([]byte(nil), buf...)
+		for int64(len(out)) < base {
+			out = append(out, 0)
+		}
+		level := int(node[5])
+		mk := func(lv int, child int64) []byte {
+			n := append([]byte(nil), node...)
+			if lv > 255 {
+				lv = 255
+			}
+			n[5] = byte(lv)
+			for k := 0; k+1 < len(ptrs); k += 2 {
+				at := int(ptrs[k]) | int(ptrs[k+1])<<8
+				if at+8 <= len(n) {
+					binary.LittleEndian.PutUint64(n[at:], uint64(child))
+				}
+			}
+			return n
+		}
+		out = append(out, node...) // level 0 of the ladder: the original node
+		prev := base
+		for i := 1; i < f.Keep; i++ {
+			out = append(out, mk(level+i, prev)...)
+			prev = base + int64(i)*f.Len
+		}
+		copy(out[f.Off:], mk(level+f.Keep, prev))
+		return out, true
+	}
+	return nil, false
+}
+
 // Materialize writes the (possibly altered) input file a C07/C17-truncation
 // trace describes to out: the base file with the trace's byte faults applied.
 func Materialize(t *trace.Trace, dir, out string) error {
@@ -282,16 +360,8 @@ func Materialize(t *trace.Trace, dir, out string) error {
 		return err
 	}
 	for _, f := range t.Faults {
-		switch f.Kind {
-		case "set_bytes":
-			x, _ := hex.DecodeString(f.Hex)
-			if f.Off >= 0 && f.Off+int64(len(x)) <= int64(len(b)) {
-				copy(b[f.Off:], x)
-			}
-		case "truncate":
-			if f.Len >= 0 && f.Len <= int64(len(b)) {
-				b = b[:f.Len]
-			}
+		if nb, ok := applyMutation(b, f); ok {
+			b = nb
 		}
 	}
 	return os.WriteFile(out, b, 0o644)
